@@ -48,6 +48,8 @@ def _line(draw, pool):
     k = draw(st.integers(0, 7))
     if k == 2 and draw(st.integers(0, 7)) == 0:
         return draw(st.sampled_from(WORD_RUNS))
+    if k == 3 and draw(st.sampled_from(range(12))) == 6:
+        return w + " \x00"          # a NUL character (valid JSON; git and diff3 call such text binary)
     if k == 0:
         w = w + draw(st.sampled_from([" #1", " + 1", "  ", "x", " # TODO"]))
     elif k == 1:
@@ -304,8 +306,14 @@ def edit_text(draw, s, pool=None):
     pool = pool or CODE_LINES
     lines = s.splitlines(True)
     for _ in range(draw(st.integers(1, 3))):
-        op = draw(st.sampled_from(["ins", "del", "mod", "mod", "append_nonl", "eol"]))
-        if op == "ins" or not lines:
+        op = draw(st.sampled_from(["ins", "del", "mod", "mod", "append_nonl", "eol", "del_and_strip_next"]))
+        if op == "del_and_strip_next" and len(lines) >= 3:
+            # drop a line and the leading characters of the line after it (an `if` header removed, its body de-dented), not at the top
+            i = draw(st.integers(1, len(lines) - 2))
+            nxt = lines[i + 1]
+            cut = (len(nxt) - len(nxt.lstrip(" "))) or min(draw(st.integers(1, 4)), max(1, len(nxt.rstrip("\r\n")) - 1))
+            lines[i:i + 2] = [nxt[cut:]]
+        elif op == "ins" or op == "del_and_strip_next" or not lines:
             i = draw(st.integers(0, len(lines)))
             if i == len(lines) and lines and not lines[-1].endswith(("\n", "\r")):
                 lines[-1] += "\n"
@@ -683,7 +691,7 @@ def _forced_conflict(draw, base):
     n = len(base["cells"])
     shape = draw(st.sampled_from(["del_vs_edit", "edit_vs_del", "both_edit_source", "both_edit_outputs", "both_edit_meta",
                                   "both_insert_same_pos", "both_insert_similar", "both_insert_runs", "both_insert_runs", "insert_next_to_edit", "insert_next_to_del",
-                                  "both_append_nonl", "both_attach", "both_attach_leftover", "same_insert_next_line_edit", "same_insert_next_line_edit", "both_add_outputs_shared", "both_add_outputs_shared", "attach_del_vs_edit", "out_insert_vs_change", "out_insert_vs_change", "same_output_line_small_edits", "same_output_line_small_edits", "both_replace_sub", "both_replace_sub", "both_replace_sub", "both_nbmeta", "both_minor", "both_del", "both_ec", "both_change_id",
+                                  "both_append_nonl", "both_attach", "both_attach_leftover", "same_insert_next_line_edit", "same_insert_next_line_edit", "both_add_outputs_shared", "both_add_outputs_shared", "attach_del_vs_edit", "out_insert_vs_change", "out_insert_vs_change", "same_output_line_small_edits", "same_output_line_small_edits", "both_replace_sub", "both_replace_sub", "both_replace_sub", "both_edit_text_with_nul", "both_nbmeta", "both_minor", "both_del", "both_ec", "both_change_id",
                                   "both_same_edit", "both_edit_same_output", "both_edit_same_output", "transient_meta", "type_vs_edit", "type_vs_edit", "type_vs_edit", "both_rerun", "both_rerun", "both_rerun", "both_rerun", "two_outputs", "two_outputs", "both_insert_block"]))
     usedl, usedr = _ids(l), _ids(r)
     if shape == "both_insert_runs":
@@ -913,6 +921,11 @@ def _forced_conflict(draw, base):
                 if tag == more_side:
                     new = ["# follow-up\n"] + new if extra_first else new + ["follow_up(rewritten)\n"]
                 side["cells"][i]["source"] = "".join(lines[:k] + new + lines[k + 1:])
+    elif shape == "both_edit_text_with_nul":
+        # both sides edit the same line of a source that holds a NUL character (valid JSON; external merge tools call it binary)
+        src = "a = 1\nb = '\x00'\nc = 3\n"
+        for nb_, tail in ((base, ""), (l, " + x"), (r, " + y")):
+            nb_["cells"][i]["source"] = src.replace("'\x00'", "'\x00'" + tail)
     elif shape == "both_insert_block":
         # both sides insert a block of lines at the same line of the same source; the blocks share (repeated) lines
         # around a differing middle, e.g. blank line / statement / blank line
